@@ -12,7 +12,7 @@ import ast
 
 import sympy as sp
 
-from ..srcmodel import Unrecognised, unparse, call_name, walk, statements, guards_of, const
+from ..srcmodel import established_false, Unrecognised, unparse, call_name, walk, statements, guards_of, const
 from ..effects import Analyzer, clean_path, significant
 from . import C02
 
@@ -222,6 +222,11 @@ def d3_precedence(ctx, obs, rule='C03-D3'):
             c = gclass(t)
             if c:
                 g[c] = pol
+        # guard-clause style: `if name in kwargs: ...; return` in front of the store excludes the condition as well
+        for t in established_false(obs, f, st):
+            c = gclass(t)
+            if c and c not in g:
+                g[c] = False
         ctx.check(rule, key, g == want[src], 'value from %s used exactly under %s' % (src, want[src]),
                   'value from %s is used under conditions %s, precedence requires %s (argument > per-ensemble dictionary > global default)' % (src, g, want[src]), obs.loc(st))
     if seen != {'arg', 'dict', 'global'}:
